@@ -29,17 +29,19 @@ def TaskAt (s : St) (i : Nat) (p : List Instr) : Prop :=
 
 theorem measure_pushEntry (s : St) (e : Entry) : measure (pushEntry s e) = measure s + 1 := by
   unfold pushEntry measure
-  cases e.kind <;> simp <;> omega
+  cases e.kind <;> simp only <;> split <;> simp <;> omega
 
 theorem measure_enqueue (s : St) (k : Kind) (i : Nat) : measure (enqueue s k i) = measure s + 1 :=
   measure_pushEntry _ _
 
 theorem tasks_pushEntry (s : St) (e : Entry) : (pushEntry s e).tasks = s.tasks := by
-  unfold pushEntry; cases e.kind <;> rfl
+  unfold pushEntry; cases e.kind <;> simp only <;> split <;> rfl
 
 theorem tasks_enqueue (s : St) (k : Kind) (i : Nat) : (enqueue s k i).tasks = s.tasks := tasks_pushEntry _ _
 
 theorem measure_defer (s : St) (k : Kind) (i : Nat) : measure (defer s k i) = measure s := rfl
+
+theorem measure_addTimer (s : St) (tm : Timer) : measure (addTimer s tm) = measure s := rfl
 
 theorem measure_logAt (s : St) (i r : Nat) (o : Phase) : measure (logAt s i r o) = measure s := rfl
 
@@ -206,6 +208,36 @@ theorem measure_runProg (k : Kind) (i : Nat) :
           · have := measure_setTask s t tj { tj with joiner := some (k, i) } hj
             have e : tw { tj with joiner := some (k, i) } = tw tj := rfl
             omega
+    | sleep d =>
+      simp only [runProg]
+      split
+      · rw [measure_addTimer]
+        have := measure_setProg s i (.sleep d :: r) (.sleeping (s.now + d) :: r) h
+        simp [iw] at this
+        omega
+      · have h2 := ih c s.now s.phase (logAt (setProg s i r) i rdy org) ht
+        rw [measure_logAt] at h2
+        simp [iw] at hs
+        omega
+    | sleepUntil t =>
+      simp only [runProg]
+      split
+      · rw [measure_addTimer]
+        have := measure_setProg s i (.sleepUntil t :: r) (.sleeping t :: r) h
+        simp [iw] at this
+        omega
+      · have h2 := ih c s.now s.phase (logAt (setProg s i r) i rdy org) ht
+        rw [measure_logAt] at h2
+        simp [iw] at hs
+        omega
+    | sleeping t =>
+      simp only [runProg]
+      split
+      · exact Nat.le_refl _
+      · have h2 := ih c s.now s.phase (logAt (setProg s i r) i rdy org) ht
+        rw [measure_logAt] at h2
+        simp [iw] at hs
+        omega
 
 theorem measure_markPolled (s : St) (i : Nat) : measure (markPolled s i) = measure s := by
   unfold markPolled
@@ -243,39 +275,45 @@ theorem measure_pollTask (P : Params) (e : Entry) (s : St) : measure (pollTask P
         rw [measure_logAt, measure_markPolled] at this
         exact this
 
-theorem measure_setQueue_cons (q : Kind) (s : St) (e : Entry) (r : List Entry) (h : queue q s = e :: r) :
-    measure (setQueue q s r) + 1 = measure s := by
-  cases q <;> simp only [queue] at h <;> simp [setQueue, measure, h] <;> omega
+theorem measure_pop (P : Params) (q : Kind) (s s' : St) (e : Entry) (h : pop P q s = some (e, s')) :
+    measure s' + 1 = measure s := by
+  rcases pop_some P q s s' e h with ⟨r, h1, rfl⟩ | ⟨r, h1, rfl⟩ | ⟨r, h1, rfl⟩ <;>
+    simp [measure, h1] <;> omega
 
 /-- every poll strictly decreases the measure -/
-theorem measure_step (P : Params) (q : Kind) (s : St) (e : Entry) (r : List Entry) (h : queue q s = e :: r) :
+theorem measure_step (P : Params) (q : Kind) (s : St) (x : Entry × St) (h : pop P q s = some x) :
     measure (step P q s) + 1 ≤ measure s := by
+  obtain ⟨e, s'⟩ := x
   unfold step
   rw [h]
-  have h1 := measure_pollTask P e (setQueue q s r)
-  have h2 := measure_setQueue_cons q s e r h
+  have h1 := measure_pollTask P e s'
+  have h2 := measure_pop P q s s' e h
   simp only
   omega
 
-theorem queue_len_le_measure (q : Kind) (s : St) : (queue q s).length ≤ measure s := by
-  cases q <;> simp [queue, measure] <;> omega
+theorem pop_none_of_measure (P : Params) (q : Kind) (s : St) (h : measure s = 0) : pop P q s = none := by
+  unfold measure at h
+  cases q with
+  | loc => exact (pop_none_loc P s).2 (List.eq_nil_of_length_eq_zero (by omega))
+  | rt =>
+    exact (pop_none_rt P s).2
+      ⟨List.eq_nil_of_length_eq_zero (by omega), List.eq_nil_of_length_eq_zero (by omega)⟩
 
 /-- all wake chains of the model terminate: `measure s` polls always empty the queue -/
 theorem measure_drains (P : Params) (q : Kind) :
-    ∀ (b : Nat) (s : St), measure s ≤ b → queue q (runQ P q b s) = [] := by
+    ∀ (b : Nat) (s : St), measure s ≤ b → pop P q (runQ P q b s) = none := by
   intro b
   induction b with
   | zero =>
     intro s h
-    have := queue_len_le_measure q s
-    exact List.eq_nil_of_length_eq_zero (by simp only [runQ]; omega)
+    exact pop_none_of_measure P q s (by omega)
   | succ b ih =>
     intro s h
-    cases hq : queue q s with
-    | nil => rw [runQ_of_empty P q _ s hq]; exact hq
-    | cons e r =>
-      rw [runQ_cons P q b s e r hq]
-      have := measure_step P q s e r hq
+    cases hq : pop P q s with
+    | none => rw [runQ_of_empty P q _ s hq]; exact hq
+    | some x =>
+      rw [runQ_cons P q b s x hq]
+      have := measure_step P q s x hq
       exact ih _ (by omega)
 
 end Exec
